@@ -1314,4 +1314,416 @@ theorem first_contact_at (C : Crypto) (hC : HashWF C) (bs : Array Bytes) (hs : b
     (by rw [signable_extract C bs n hn]; exact hver)
   exact ⟨r1, (repr_extract C bs n hn hs _ _ _).mp r2, r3, r4⟩
 
+/-! ### the writer produces exactly this answer -/
+
+/-- right siblings along the path from `(j, q)` upwards, `gap` levels -/
+def rightSibs : Nat → Nat → Nat → List (Nat × Nat)
+  | 0, _, _ => []
+  | g+1, j, q => (if q % 2 = 0 then [(j, q + 1)] else []) ++ rightSibs g (j + 1) (q / 2)
+
+theorem rightSibs_skip : ∀ (k g j X : Nat), (X + 1) % 2 ^ k = 0 → rightSibs (k + g) j X = rightSibs g (j + k) (X / 2 ^ k) := by
+  intro k
+  induction k with
+  | zero => intro g j X _; simp
+  | succ k ih =>
+    intro g j X h
+    have hp := pow_pos' k
+    obtain ⟨c, hc⟩ : 2 ^ (k + 1) ∣ X + 1 := Nat.dvd_of_mod_eq_zero h
+    rw [pow_succ2] at hc
+    have hodd : ¬ (X % 2 = 0) := by
+      have : X + 1 = 2 * (2 ^ k * c) := by rw [hc]; ring
+      omega
+    have hhalf : (X / 2 + 1) % 2 ^ k = 0 := by
+      have : X / 2 + 1 = 2 ^ k * c := by
+        have : X + 1 = 2 * (2 ^ k * c) := by rw [hc]; ring
+        omega
+      rw [this]; exact Nat.mul_mod_right _ _
+    rw [show k + 1 + g = (k + g) + 1 by omega]
+    simp only [rightSibs, hodd, ite_false, List.nil_append]
+    rw [ih g (j + 1) (X / 2) hhalf, div_pow_pred]
+    congr 1; omega
+
+theorem grow_rightSibs (D O : Nat) : ∀ (gs : List (Nat × Nat)) (L E : Nat), Grow gs L E → E = (O + 1) * 2 ^ D → O * 2 ^ D < L →
+    gs = rightSibs D 0 (L - 1) := by
+  intro gs L E hg
+  induction hg with
+  | nil E =>
+    intro hE _
+    have hpD := pow_pos' D
+    have h1 : (E - 1 + 1) % 2 ^ D = 0 := by
+      have : 0 < E := by rw [hE]; exact Nat.mul_pos (Nat.succ_pos _) hpD
+      rw [Nat.sub_add_cancel this, hE]; exact Nat.mul_mod_left _ _
+    have := rightSibs_skip D 0 0 (E - 1) h1
+    simp only [Nat.add_zero, Nat.zero_add] at this
+    rw [this]; rfl
+  | cons J M E rest hM hfit _ ih =>
+    intro hE hlt
+    have hpJ := pow_pos' J
+    have hpD := pow_pos' D
+    have hM1 : 1 ≤ M := by omega
+    -- the block is smaller than the root
+    have hJD : J < D := by
+      by_contra hge
+      have hdv : 2 ^ D ∣ M * 2 ^ J := Nat.dvd_trans (Nat.pow_dvd_pow 2 (by omega : D ≤ J)) (Nat.dvd_mul_left _ _)
+      have g1 := mult_gap (2 ^ D) (O * 2 ^ D) _ (Nat.dvd_mul_left _ _) hdv hlt
+      have : (O + 1) * 2 ^ D = O * 2 ^ D + 2 ^ D := by ring
+      omega
+    obtain ⟨g, rfl⟩ : ∃ g, D = J + 1 + g := ⟨D - J - 1, by omega⟩
+    have hrest := ih hE (by omega)
+    -- the levels below J carry nothing, level J carries the block
+    have hL1 : (M * 2 ^ J - 1 + 1) % 2 ^ J = 0 := by
+      have : 0 < M * 2 ^ J := Nat.mul_pos hM1 hpJ
+      rw [Nat.sub_add_cancel this]; exact Nat.mul_mod_left _ _
+    have hdivJ : (M * 2 ^ J - 1) / 2 ^ J = M - 1 := by
+      apply div_eq_of_span
+      · have : (M - 1) * 2 ^ J + 2 ^ J = M * 2 ^ J := by
+          have : M = (M - 1) + 1 := by omega
+          calc (M - 1) * 2 ^ J + 2 ^ J = ((M - 1) + 1) * 2 ^ J := by ring
+            _ = M * 2 ^ J := by rw [← this]
+        omega
+      · have : (M - 1 + 1) * 2 ^ J = M * 2 ^ J := by rw [Nat.sub_add_cancel hM1]
+        omega
+    have e1 := rightSibs_skip J (1 + g) 0 (M * 2 ^ J - 1) hL1
+    rw [show J + (1 + g) = J + 1 + g by omega] at e1
+    rw [e1, hdivJ]
+    have hev : (M - 1) % 2 = 0 := by omega
+    rw [show 1 + g = g + 1 by omega]
+    simp only [rightSibs, hev, ite_true, Nat.zero_add, List.singleton_append]
+    rw [Nat.sub_add_cancel hM1]
+    congr 1
+    -- the rest starts above level J + 1
+    have hL' : M * 2 ^ J + 2 ^ J = (M + 1) / 2 * 2 ^ (J + 1) := by
+      rw [pow_succ2]
+      have : (M + 1) / 2 * (2 * 2 ^ J) = (2 * ((M + 1) / 2)) * 2 ^ J := by ring
+      rw [this]
+      have : 2 * ((M + 1) / 2) = M + 1 := by omega
+      rw [this]; ring
+    have hL'1 : (M * 2 ^ J + 2 ^ J - 1 + 1) % 2 ^ (J + 1) = 0 := by
+      have : 0 < M * 2 ^ J + 2 ^ J := by omega
+      rw [Nat.sub_add_cancel this, hL']; exact Nat.mul_mod_left _ _
+    have e2 := rightSibs_skip (J + 1) g 0 (M * 2 ^ J + 2 ^ J - 1) hL'1
+    have hdiv2 : (M * 2 ^ J + 2 ^ J - 1) / 2 ^ (J + 1) = (M - 1) / 2 := by
+      have hp2 := pow_pos' (J + 1)
+      apply div_eq_of_span
+      · have : ((M - 1) / 2 + 1) * 2 ^ (J + 1) = (M + 1) / 2 * 2 ^ (J + 1) := by
+          congr 1; omega
+        have e3 : ((M - 1) / 2 + 1) * 2 ^ (J + 1) = (M - 1) / 2 * 2 ^ (J + 1) + 2 ^ (J + 1) := by ring
+        omega
+      · have : ((M - 1) / 2 + 1) * 2 ^ (J + 1) = (M + 1) / 2 * 2 ^ (J + 1) := by
+          congr 1; omega
+        omega
+    rw [hrest, e2, hdiv2]
+    simp
+
+/-- the "connect existing tree" walk of `upgrade_proof`: from leaf `m − 1` up to the root, it collects the right siblings -/
+theorem connectWalk_honest (C : Crypto) (bs : Array Bytes) (t : Tree) (f : File) (hN : NodesOK C bs t f) (m : Nat) (hm0 : 0 < m)
+    (sub : Nat) (hsub : 2 * bs.size ≤ sub) (p : LocalProof) (D O : Nat) (hR : (O + 1) * 2 ^ D ≤ bs.size) :
+    ∀ (gap j fuel : Nat) (acc : List Node), j + gap = D → (m - 1) / 2 ^ (j + gap) = O → gap < fuel →
+      connectWalk t f true none false sub (Flat.index D O) (2 * (m - 1)) fuel (iat j ((m - 1) / 2 ^ j)) acc p
+        = .ok (acc ++ (rightSibs gap j ((m - 1) / 2 ^ j)).map (fun q => nodeAt C bs q.1 q.2), p) := by
+  intro gap
+  induction gap with
+  | zero =>
+    intro j fuel acc hj hO hf
+    obtain ⟨fuel, rfl⟩ : ∃ x, fuel = x + 1 := ⟨fuel - 1, by omega⟩
+    have : j = D := by omega
+    subst this
+    simp only [Nat.add_zero] at hO
+    have : (iat j ((m - 1) / 2 ^ j)).index = Flat.index j O := by rw [hO]; rfl
+    simp [connectWalk, this, rightSibs]
+  | succ gap ih =>
+    intro j fuel acc hj hO hf
+    obtain ⟨fuel, rfl⟩ : ∃ x, fuel = x + 1 := ⟨fuel - 1, by omega⟩
+    have hpj := pow_pos' j
+    generalize hq : (m - 1) / 2 ^ j = q
+    have hq1 : q * 2 ^ j ≤ m - 1 := by rw [← hq]; exact Nat.div_mul_le_self _ _
+    have hq2 : m - 1 < (q + 1) * 2 ^ j := by
+      rw [← hq]
+      exact (Nat.div_lt_iff_lt_mul hpj).mp (Nat.lt_succ_self _)
+    have hne : ¬ ((iat j q).index = Flat.index D O) := by
+      intro e
+      have := (index_inj j q D O e).1
+      omega
+    have hhalf : q / 2 = (m - 1) / 2 ^ (j + 1) := by rw [← hq, div_pow_succ']
+    -- the node lies inside the root
+    have hspanR : (q / 2 + 1) * 2 ^ (j + 1) ≤ (O + 1) * 2 ^ D := by
+      have := span_le (q / 2) (j + 1) gap
+      rw [hhalf, Nat.div_div_eq_div_mul, ← Nat.pow_add, show j + 1 + gap = j + (gap + 1) by omega, hO] at this
+      rw [hhalf]
+      rw [hj] at this
+      exact this
+    simp only [connectWalk, hne, ite_false, iat_sibling, iat_parent, sib_half]
+    rw [hhalf]
+    by_cases hev : q % 2 = 0
+    · -- a left child: its right sibling is sent
+      have hs : sib q = q + 1 := by unfold sib; simp [hev]
+      have hgt : (iat j (sib q)).index > 2 * (m - 1) := by
+        rw [hs]
+        have : (iat j (q + 1)).index = (q + 1) * (2 * 2 ^ j) + (2 ^ j - 1) := index_eq j (q + 1)
+        have e : (q + 1) * (2 * 2 ^ j) = 2 * ((q + 1) * 2 ^ j) := by ring
+        omega
+      have hsb : (sib q + 1) * 2 ^ j ≤ bs.size := by
+        have := sib_bound q j
+        omega
+      have hcont : (iat j (sib q)).contains sub = false := by
+        rw [iat_contains]
+        have e : (sib q + 1) * 2 ^ (j + 1) = 2 * ((sib q + 1) * 2 ^ j) := by rw [pow_succ2]; ring
+        have : ¬ (sub + 2 ≤ (sib q + 1) * 2 ^ (j + 1)) := by rw [e]; omega
+        simp [this]
+      have hreq : t.requiredNode f (iat j (sib q)).index = .ok (nodeAt C bs j (sib q)) := UpgradeComplete.requiredNode_ok C bs t f hN j (sib q) hsb
+      simp only [hgt, ite_true, hcont, Bool.and_false, Bool.false_eq_true, ite_false, hreq]
+      rw [ih (j + 1) fuel _ (by omega) (by rw [show j + 1 + gap = j + (gap + 1) by omega]; exact hO) (by omega)]
+      simp only [rightSibs, hev, ite_true, hs, ← hhalf]
+      simp
+    · have hs : sib q = q - 1 := by unfold sib; simp [hev]
+      have hle : ¬ ((iat j (sib q)).index > 2 * (m - 1)) := by
+        rw [hs]
+        have : (iat j (q - 1)).index = (q - 1) * (2 * 2 ^ j) + (2 ^ j - 1) := index_eq j (q - 1)
+        have e : (q - 1) * (2 * 2 ^ j) + 2 * 2 ^ j = 2 * (q * 2 ^ j) := by
+          have : q = (q - 1) + 1 := by omega
+          calc (q - 1) * (2 * 2 ^ j) + 2 * 2 ^ j = ((q - 1) + 1) * (2 * 2 ^ j) := by ring
+            _ = q * (2 * 2 ^ j) := by rw [← this]
+            _ = 2 * (q * 2 ^ j) := by ring
+        omega
+      simp only [hle, ite_false]
+      rw [ih (j + 1) fuel _ (by omega) (by rw [show j + 1 + gap = j + (gap + 1) by omega]; exact hO) (by omega)]
+      simp only [rightSibs, hev, ite_false, ← hhalf]
+      simp
+
+/-- the tail of the root loop of `upgrade_proof`: every remaining root is sent -/
+theorem upgradeLoop_tail (C : Crypto) (bs : Array Bytes) (t : Tree) (f : File) (hNodes : NodesOK C bs t f) (hN : bs.size < 2 ^ 64)
+    (frm : Nat) (sub : Nat) (hsub : 2 * bs.size ≤ sub) (p : LocalProof) :
+    ∀ (rest : List (Nat × Nat)) (fuel s : Nat) (acc : List Node), Cover rest s bs.size → DecDepth rest → Align s bs.size →
+      frm ≤ 2 * s → rest.length < fuel →
+      t.upgradeLoop f true none false frm (2 * bs.size) sub fuel (iat 0 s) true acc p
+        = .ok (true, acc ++ rest.map (fun q => nodeAt C bs q.1 q.2), p) := by
+  intro rest
+  induction rest with
+  | nil =>
+    intro fuel s acc hc _ _ _ hfuel
+    have := UpgradeComplete.cover_nil_eq _ _ hc
+    subst this
+    obtain ⟨fuel, rfl⟩ : ∃ x, fuel = x + 1 := ⟨fuel - 1, by simp at hfuel; omega⟩
+    unfold Tree.upgradeLoop
+    rw [fullRoot_done bs.size bs.size (Nat.le_refl _)]
+    simp
+  | cons q rest ih =>
+    intro fuel s acc hc hdec hal hfrm hfuel
+    obtain ⟨d, o⟩ := q
+    obtain ⟨fuel, rfl⟩ : ∃ x, fuel = x + 1 := ⟨fuel - 1, by simp at hfuel; omega⟩
+    obtain ⟨c1, c2, c3⟩ := cover_lt _ s bs.size d o rest rfl hc hdec
+    have hs : s < bs.size := by have := pow_pos' d; omega
+    obtain ⟨J, hfr, hd, hfit, hal', hmax⟩ := fullRoot_canon s bs.size hal hs hN
+    have hJ : J = d := by
+      have h1 : 2 ^ J < 2 ^ (d + 1) := by omega
+      have h2 : 2 ^ d < 2 ^ (J + 1) := by rw [two_pow_succ]; omega
+      have := (Nat.pow_lt_pow_iff_right (by decide : 1 < 2)).mp h1
+      have := (Nat.pow_lt_pow_iff_right (by decide : 1 < 2)).mp h2
+      omega
+    subst hJ
+    have ho : s / 2 ^ J = o := by rw [c3]; exact Nat.mul_div_cancel _ (pow_pos' J)
+    rw [ho] at hfr
+    have hnext : (iat J o).nextTree = iat 0 (s + 2 ^ J) := by rw [← ho]; exact iat_nextTree J s hd
+    have hspan : (o + 1) * 2 ^ J ≤ bs.size := by
+      have : (o + 1) * 2 ^ J = s + 2 ^ J := by rw [c3]; ring
+      omega
+    have hcont : (iat J o).contains sub = false := by
+      rw [iat_contains]
+      have e : (o + 1) * 2 ^ (J + 1) = 2 * ((o + 1) * 2 ^ J) := by rw [two_pow_succ]; ring
+      have : ¬ (sub + 2 ≤ (o + 1) * 2 ^ (J + 1)) := by rw [e]; omega
+      simp [this]
+    have hnoskip : ¬ ((iat J o).index + (iat J o).factor / 2 < frm) := by
+      have hidx : (iat J o).index = 2 * s + 2 ^ J - 1 := by rw [← ho]; exact index_aligned J s hd
+      have hfac : (iat J o).factor / 2 = 2 ^ J := by simp only [iat, two_pow_succ]; omega
+      have := pow_pos' J
+      omega
+    have hrest' : Cover rest (s + 2 ^ J) bs.size := by
+      cases hc with
+      | cons _ _ _ _ _ _ hr =>
+        have : (o + 1) * 2 ^ J = s + 2 ^ J := by rw [c3]; ring
+        rw [this] at hr; exact hr
+    unfold Tree.upgradeLoop
+    rw [hfr]
+    simp only [Bool.not_true, Bool.false_eq_true, ite_false, hnoskip, Bool.false_and, hcont, Bool.and_false]
+    rw [show (iat J o).index = Flat.index J o from rfl, UpgradeComplete.requiredNode_ok C bs t f hNodes J o hspan]
+    simp only []
+    rw [hnext, ih fuel (s + 2 ^ J) (acc ++ [nodeAt C bs J o]) hrest' (List.pairwise_cons.mp hdec).2 hal' (by omega) (by simp at hfuel; omega)]
+    simp
+
+/-- the root loop of `upgrade_proof` for an upgrade from `m`: it sends exactly the honest position list -/
+theorem upgradeLoop_up (C : Crypto) (bs : Array Bytes) (t : Tree) (f : File) (hNodes : NodesOK C bs t f) (hN : bs.size < 2 ^ 64)
+    (m : Nat) (hm0 : 0 < m) (hmn : m < bs.size) (sub : Nat) (hsub : 2 * bs.size ≤ sub) (p : LocalProof) :
+    ∀ (ln : List (Nat × Nat)) (fuel s : Nat) (acc : List Node) (us : List (Nat × Nat)), Cover ln s bs.size → DecDepth ln → Align s bs.size →
+      Up m s ln us → ln.length < fuel →
+      t.upgradeLoop f true none false (2 * m) (2 * bs.size) sub fuel (iat 0 s) false acc p
+        = .ok (true, acc ++ us.map (fun q => nodeAt C bs q.1 q.2), p) := by
+  intro ln
+  induction ln with
+  | nil =>
+    intro fuel s acc us hc _ _ hup _
+    exfalso
+    have hs := UpgradeComplete.cover_nil_eq _ _ hc
+    cases hup with
+    | plain => omega
+  | cons q ln ih =>
+    intro fuel s acc us hc hdec hal hup hfuel
+    obtain ⟨d, o⟩ := q
+    obtain ⟨fuel, rfl⟩ : ∃ x, fuel = x + 1 := ⟨fuel - 1, by simp at hfuel; omega⟩
+    obtain ⟨c1, c2, c3⟩ := cover_lt _ s bs.size d o ln rfl hc hdec
+    have hpd := pow_pos' d
+    have hs : s < bs.size := by omega
+    obtain ⟨J, hfr, hd, hfit, hal', hmax⟩ := fullRoot_canon s bs.size hal hs hN
+    have hJ : J = d := by
+      have h1 : 2 ^ J < 2 ^ (d + 1) := by omega
+      have h2 : 2 ^ d < 2 ^ (J + 1) := by rw [two_pow_succ]; omega
+      have := (Nat.pow_lt_pow_iff_right (by decide : 1 < 2)).mp h1
+      have := (Nat.pow_lt_pow_iff_right (by decide : 1 < 2)).mp h2
+      omega
+    subst hJ
+    have ho : s / 2 ^ J = o := by rw [c3]; exact Nat.mul_div_cancel _ (pow_pos' J)
+    rw [ho] at hfr
+    have hnext : (iat J o).nextTree = iat 0 (s + 2 ^ J) := by rw [← ho]; exact iat_nextTree J s hd
+    have hE : (o + 1) * 2 ^ J = s + 2 ^ J := by rw [c3]; ring
+    have hspan : (o + 1) * 2 ^ J ≤ bs.size := by omega
+    have hidx : (iat J o).index = 2 * s + 2 ^ J - 1 := by rw [← ho]; exact index_aligned J s hd
+    have hfac : (iat J o).factor / 2 = 2 ^ J := by simp only [iat, two_pow_succ]; omega
+    have hcont : (iat J o).contains sub = false := by
+      rw [iat_contains]
+      have e : (o + 1) * 2 ^ (J + 1) = 2 * ((o + 1) * 2 ^ J) := by rw [two_pow_succ]; ring
+      have : ¬ (sub + 2 ≤ (o + 1) * 2 ^ (J + 1)) := by rw [e]; omega
+      simp [this]
+    have hrest' : Cover ln (s + 2 ^ J) bs.size := by
+      cases hc with
+      | cons _ _ _ _ _ _ hr => rw [hE] at hr; exact hr
+    rcases hup.inv with ⟨hend, _, hup'⟩ | ⟨hsm, husq⟩ | ⟨gs, _, hlt, hgt, hg, husq⟩
+    · -- the replica has this root: skipped
+      have hskip : (iat J o).index + (iat J o).factor / 2 < 2 * m := by rw [hidx, hfac]; omega
+      unfold Tree.upgradeLoop
+      rw [hfr]
+      simp only [Bool.not_true, Bool.false_eq_true, ite_false, hskip, ite_true, hnext]
+      rw [hE] at hup'
+      exact ih fuel (s + 2 ^ J) acc us hrest' (List.pairwise_cons.mp hdec).2 hal' hup' (by simp at hfuel; omega)
+    · -- the replica's length is a root boundary of the writer: this root and all that follow are sent
+      subst hsm
+      subst husq
+      have hnoskip : ¬ ((iat J o).index + (iat J o).factor / 2 < 2 * s) := by rw [hidx, hfac]; omega
+      have hnocont : (iat J o).contains (2 * s - 2) = false := by
+        rw [iat_contains]
+        have e : o * 2 ^ (J + 1) = 2 * (o * 2 ^ J) := by rw [two_pow_succ]; ring
+        have : ¬ (o * 2 ^ (J + 1) ≤ 2 * s - 2) := by rw [e, ← c3]; omega
+        simp [this]
+      unfold Tree.upgradeLoop
+      rw [hfr]
+      simp only [Bool.not_true, Bool.false_eq_true, ite_false, hnoskip, Bool.not_false, Bool.true_and, hnocont, hcont, Bool.and_false]
+      rw [show (iat J o).index = Flat.index J o from rfl, UpgradeComplete.requiredNode_ok C bs t f hNodes J o hspan]
+      simp only []
+      rw [hnext, upgradeLoop_tail C bs t f hNodes hN (2 * s) sub hsub p ln fuel (s + 2 ^ J) (acc ++ [nodeAt C bs J o]) hrest'
+        (List.pairwise_cons.mp hdec).2 hal' (by omega) (by simp at hfuel; omega)]
+      simp
+    · -- the first new root: connect the replica's tree to it
+      subst husq
+      rw [← c3] at hlt
+      have hnoskip : ¬ ((iat J o).index + (iat J o).factor / 2 < 2 * m) := by rw [hidx, hfac]; omega
+      have hcontm : (iat J o).contains (2 * m - 2) = true := by
+        rw [iat_contains]
+        have e1 : o * 2 ^ (J + 1) = 2 * (o * 2 ^ J) := by rw [two_pow_succ]; ring
+        have e2 : (o + 1) * 2 ^ (J + 1) = 2 * ((o + 1) * 2 ^ J) := by rw [two_pow_succ]; ring
+        have h1 : o * 2 ^ (J + 1) ≤ 2 * m - 2 := by rw [e1, ← c3]; omega
+        have h2 : 2 * m - 2 + 2 ≤ (o + 1) * 2 ^ (J + 1) := by rw [e2]; omega
+        simp [h1, h2]
+      have hleaf : 2 * m - 2 = 2 * (m - 1) := by omega
+      have hnew : Iter.new (2 * (m - 1)) = iat 0 (m - 1) := new_even (m - 1)
+      -- the root is the ancestor of leaf m − 1 at level J
+      have hanc : (m - 1) / 2 ^ J = o := by
+        apply div_eq_of_span
+        · rw [← c3]; omega
+        · omega
+      have hgs := grow_rightSibs J o gs m _ hg rfl (by rw [← c3]; exact hlt)
+      have hcw := connectWalk_honest C bs t f hNodes m hm0 sub hsub p J o hspan J 0 80 acc (by omega) (by simpa using hanc)
+        (by
+          have h4 : 2 ^ J ≤ (o + 1) * 2 ^ J := Nat.le_mul_of_pos_left _ (Nat.succ_pos _)
+          have h5 : 2 ^ J < 2 ^ 64 := by omega
+          have := (Nat.pow_lt_pow_iff_right (by decide : 1 < 2)).mp h5
+          omega)
+      simp only [Nat.pow_zero, Nat.div_one] at hcw
+      unfold Tree.upgradeLoop
+      rw [hfr]
+      rw [hleaf] at hcontm
+      simp only [Bool.not_true, Bool.false_eq_true, ite_false, hnoskip, Bool.not_false, Bool.true_and, hleaf, hcontm, ite_true, hnew]
+      rw [show (iat J o).index = Flat.index J o from rfl, hcw]
+      simp only []
+      rw [hnext, upgradeLoop_tail C bs t f hNodes hN (2 * m) sub hsub p ln fuel (s + 2 ^ J) _ hrest'
+        (List.pairwise_cons.mp hdec).2 hal' (by omega) (by simp at hfuel; omega), ← hgs]
+      simp
+
+/-- **the writer's answer to "upgrade me from `m` to your length"** is the honest position list with its signature -/
+theorem create_growth_proof (C : Crypto) (bs : Array Bytes) (t : Tree) (f : File) (hT : RootsOK C bs t.changeset)
+    (hNodes : NodesOK C bs t f) (hN : bs.size < 2 ^ 64) (m : Nat) (hm0 : 0 < m) (hmn : m < bs.size) (sig : Bytes) (hsig : t.signature = some sig)
+    (us : List (Nat × Nat)) (hup : Up m 0 (rootsStack bs.size).reverse us) :
+    t.createValuelessProof f none none none (some ⟨m, bs.size - m⟩)
+      = .ok ⟨t.fork, none, none, none, some ⟨m, bs.size - m, us.map (fun q => nodeAt C bs q.1 q.2), [], sig⟩⟩ := by
+  have hlen : t.length = bs.size := hT.length
+  have hl64 : (rootsStack bs.size).reverse.length < 80 := by
+    have := rootsStack_length_log 64 bs.size hN
+    simp only [List.length_reverse]; omega
+  have hloop := upgradeLoop_up C bs t f hNodes hN m hm0 hmn (2 * bs.size) (Nat.le_refl _) {} (rootsStack bs.size).reverse 80 0 [] us
+    (cover_roots bs.size) (rootsStack_rev_dec bs.size) (align_zero _) hup hl64
+  have hnew : Iter.new 0 = iat 0 0 := new_even 0
+  have hc1 : ¬ (m * 2 ≥ m * 2 + (bs.size - m) * 2 ∨ m * 2 + (bs.size - m) * 2 > 2 * bs.size) := by omega
+  have hto : m * 2 + (bs.size - m) * 2 = 2 * bs.size := by omega
+  have hfrm : m * 2 = 2 * m := by omega
+  have hto' : 2 * m + (bs.size - m) * 2 = 2 * bs.size := by omega
+  have hc1' : ¬ (bs.size - m = 0 ∨ 2 * bs.size < 2 * bs.size) := by omega
+  have hdec : decide (2 * m = 0) = false := by simp; omega
+  unfold Tree.createValuelessProof
+  have hle : ¬ (bs.size ≤ m) := by omega
+  have hdec' : decide (m = 0) = false := by simp; omega
+  simp only [hlen, hfrm, hto', ge_iff_le, gt_iff_lt, Nat.mul_eq_zero, OfNat.ofNat_ne_zero, or_false, hc1', ite_false,
+    Option.isSome_some, Option.isSome_none, Bool.false_and, Bool.not_false, ite_true,
+    Tree.upgradeProof, hnew, hdec, hloop, List.nil_append, Nat.lt_irrefl, hsig]
+  simp [hle, hdec', hloop, hsig]
+
+theorem grow_bound : ∀ (gs : List (Nat × Nat)) (L E : Nat), Grow gs L E → ∀ q ∈ gs, (q.2 + 1) * 2 ^ q.1 ≤ E := by
+  intro gs L E hg
+  induction hg with
+  | nil => intro q hq; cases hq
+  | cons J M E rest _ hfit _ ih =>
+    intro q hq
+    rcases List.mem_cons.mp hq with rfl | hq
+    · have : (M + 1) * 2 ^ J = M * 2 ^ J + 2 ^ J := by ring
+      simp only; omega
+    · exact ih q hq
+
+theorem up_bound (m n : Nat) : ∀ (ln : List (Nat × Nat)) (s : Nat) (us : List (Nat × Nat)), Cover ln s n → Up m s ln us →
+    ∀ q ∈ us, (q.2 + 1) * 2 ^ q.1 ≤ n := by
+  intro ln
+  induction ln with
+  | nil =>
+    intro s us hc hup q hq
+    cases hup with
+    | plain => cases hq
+  | cons p ln ih =>
+    intro s us hc hup q hq
+    obtain ⟨d, o⟩ := p
+    have hrest : Cover ln ((o + 1) * 2 ^ d) n := by
+      cases hc with
+      | cons _ _ _ _ _ _ hr => exact hr
+    rcases hup.inv with ⟨_, _, hup'⟩ | ⟨_, husq⟩ | ⟨gs, _, _, _, hg, husq⟩
+    · exact ih _ us hrest hup' q hq
+    · subst husq; exact Cover.bound hc q hq
+    · subst husq
+      rcases List.mem_append.mp hq with h1 | h1
+      · exact Nat.le_trans (grow_bound gs _ _ hg q h1) hrest.le
+      · exact Cover.bound hrest q h1
+
+/-- the honest upgrade in terms of the final log is the one in terms of the writer's log at that moment -/
+theorem honestGrowth_extract (C : Crypto) (bs : Array Bytes) (n : Nat) (hn : n ≤ bs.size) (fork m : Nat) (us : List (Nat × Nat)) (sig : Bytes)
+    (hup : Up m 0 (rootsStack n).reverse us) :
+    honestGrowth C (bs.extract 0 n) fork m n us sig = honestGrowth C bs fork m n us sig := by
+  simp only [honestGrowth]
+  congr 3
+  apply List.map_congr_left
+  intro q hq
+  exact nodeAt_extract C bs n hn q.1 q.2 (up_bound m n _ 0 us (cover_roots n) hup q hq)
+
 end HC.Growth
